@@ -102,13 +102,6 @@ package storage
 //@   assumed
 //@   modifies family(CH_len)
 
-//@ func time.NewTicker
-//@   assumed
-//@   ensures result != nil
-//@   modifies nothing
-//@ func time.(*Ticker).Stop
-//@   assumed
-//@   modifies nothing
 
 //@ func heap.(*Heap).Push[*storage.item]
 //@   assumed
